@@ -288,32 +288,59 @@ func init() {
 		return mkBool(ok)
 	})
 	V("RunClockTo", func(g *G, a []Value, pos token.Pos) Value {
-		// fires, in deadline order, every pending timer whose (concrete) deadline is not after t, letting everything
-		// run in between; then the clock reads at least t. Timers armed meanwhile are included.
+		// fires every pending timer whose deadline is not after t (concrete ones in deadline order), letting everything
+		// run in between; then the clock reads at least t. Timers armed meanwhile are included. With a symbolic t or a
+		// symbolic deadline "due by t" is decided by the solver under the path condition (both outcomes explored when
+		// both are feasible); among symbolic due timers the order of firing is the order of arming.
+		vm := g.vm
 		tv := a[0].(IntV)
-		if tv.S != nil {
-			panic(unsupported("RunClockTo with a symbolic time"))
+		due := func(tm *TimerV) bool {
+			if tv.S == nil && tm.deadline.S == nil {
+				return int64(tm.deadline.C) <= int64(tv.C)
+			}
+			tb := vm.tb
+			d, t := vm.intTerm(tm.deadline, 64), vm.intTerm(tv, 64)
+			var c *Term
+			if vm.intMode {
+				c = tb.Cmp(OpILe, d, t)
+			} else {
+				c = tb.Cmp(OpSLe, d, t)
+			}
+			return g.branch(c, "timer-due")
 		}
-		t := int64(tv.C)
 		for i := 0; i < 64; i++ {
 			g.quiesce()
 			var best *TimerV
-			for _, tm := range g.vm.pendingTimers() {
-				if tm.deadline.S != nil {
-					panic(unsupported("RunClockTo with a symbolic timer deadline pending"))
+			for _, tm := range vm.pendingTimers() {
+				if !due(tm) {
+					continue
 				}
-				if int64(tm.deadline.C) <= t && (best == nil || int64(tm.deadline.C) < int64(best.deadline.C)) {
+				if best == nil {
+					best = tm
+				} else if best.deadline.S == nil && tm.deadline.S == nil && int64(tm.deadline.C) < int64(best.deadline.C) {
 					best = tm
 				}
 			}
 			if best == nil {
 				break
 			}
-			g.vm.fireTimer(best)
+			vm.fireTimer(best)
 		}
 		g.quiesce()
-		if g.vm.now.S == nil && int64(g.vm.now.C) < t {
-			g.vm.now = IntV{C: uint64(t)}
+		if vm.now.S == nil && tv.S == nil {
+			if int64(vm.now.C) < int64(tv.C) {
+				vm.now = IntV{C: tv.C}
+			}
+		} else {
+			tb := vm.tb
+			n, t := vm.intTerm(vm.now, 64), vm.intTerm(tv, 64)
+			var c *Term
+			if vm.intMode {
+				c = tb.Cmp(OpILt, n, t)
+			} else {
+				c = tb.Cmp(OpSLt, n, t)
+			}
+			vm.now = vm.fromTermT(tb.Ite(c, t, n), 64, true)
 		}
 		return nil
 	})
